@@ -16,7 +16,7 @@ Init == /\ \E a \in Tables("hasA", [I!Dom -> BOOLEAN], AllTrue),
              /\ (k = "input" => e = 1)
              /\ (k = "exp" => r = 0)
              /\ cfg = [kind |-> k, hasA |-> a[1], allowed |-> a[2], hasC |-> c[1], check |-> c[2],
-                       hasS |-> s[1], schema |-> s[2], initdef |-> i, rest |-> r, expired |-> e]
+                       hasS |-> s[1], schema |-> s[2], initdef |-> i, rest |-> r, expired |-> e, canon |-> Ident]
         /\ phase = "new" /\ out = 0 /\ ret = FALSE
 DoPut == \E v \in I!Dom, x \in BOOLEAN : (x => cfg.kind = "exp") /\ I!Put(v, x)
 Next == I!Construct \/ DoPut
